@@ -298,20 +298,111 @@ Definition fwf (i : finput) : bool :=
   && forallb (fun fc => wf_call (fi_heap i) (fi_table i) (fc_call fc)
                         && mem_str (sig_of (fc_call fc)) (fi_cands i)) (fi_calls i).
 
+(* ---------- referrers tag-schema fallback: history on ONE long-lived registry ----------
+   A registry WITHOUT the Referrers API: the client keeps, per subject, a referrers index
+   manifest under the tag sha256-<hex>; every further signature PUTs a new index and
+   DELETEs the superseded one. When only that DELETE fails (remote.ReferrersError with
+   IsReferrersIndexDelete), the signature IS pushed. Observables of one call: the outcome
+   class, whether a signature manifest over the resolved subject whose layers[0] is the
+   digest of the signer's envelope is listed in the subject's referrers index after the
+   call, the bytes fetchable under layers[0] of that manifest after the call, and the
+   store entries (blobs, manifests, tags) that existed before the call and are gone. *)
+Inductive routcome := RSuccess | RIndexDelete | RFailed.
+
+Definition routcome_eqb (a b : routcome) : bool :=
+  match a, b with
+  | RSuccess, RSuccess | RIndexDelete, RIndexDelete | RFailed, RFailed => true
+  | _, _ => false
+  end.
+
+Record rcall := mk_rcall {
+  rc_sig : string;                 (* envelope bytes the signer returned *)
+  rc_old_index : option string;    (* store key of the subject's referrers index before the call *)
+  rc_del_fails : bool              (* manifest DELETE fails during this call *)
+}.
+
+Record robs := mk_robs {
+  ro_outcome : routcome;
+  ro_attached : bool;
+  ro_envelope : option string;     (* None: layers[0] of the attached manifest is not fetchable *)
+  ro_removed : list string
+}.
+
+Definition r_ostr_eqb (a b : option string) : bool :=
+  match a, b with
+  | Some x, Some y => String.eqb x y
+  | None, None => true
+  | _, _ => false
+  end.
+
+Fixpoint r_strs_eqb (a b : list string) : bool :=
+  match a, b with
+  | [], [] => true
+  | x :: a', y :: b' => String.eqb x y && r_strs_eqb a' b'
+  | _, _ => false
+  end.
+
+Definition robs_eqb (a b : robs) : bool :=
+  routcome_eqb (ro_outcome a) (ro_outcome b)
+  && Bool.eqb (ro_attached a) (ro_attached b)
+  && r_ostr_eqb (ro_envelope a) (ro_envelope b)
+  && r_strs_eqb (ro_removed a) (ro_removed b).
+
+(* the model of a healthy client: the call pushes its signature; the superseded index is
+   removed unless its DELETE fails, which is reported and changes nothing else *)
+Definition rmodel_call (c : rcall) : robs :=
+  match rc_old_index c with
+  | Some d => if rc_del_fails c
+              then mk_robs RIndexDelete true (Some (rc_sig c)) []
+              else mk_robs RSuccess true (Some (rc_sig c)) [d]
+  | None => mk_robs RSuccess true (Some (rc_sig c)) []
+  end.
+
+(* frame: nothing but the superseded referrers index of the subject may disappear *)
+Definition r_frame (c : rcall) (o : robs) : bool :=
+  forallb (fun d => r_ostr_eqb (Some d) (rc_old_index c)) (ro_removed o).
+
+(* oracle: after a call that reports success or the referrers-index-delete outcome the
+   signature manifest is attached to the resolved subject and its envelope is fetchable
+   with exactly the signer's bytes; in every case the frame holds *)
+Definition rspec_call (c : rcall) (o : robs) : bool :=
+  r_frame c o
+  && match ro_outcome o with
+     | RFailed => true
+     | _ => ro_attached o && r_ostr_eqb (ro_envelope o) (Some (rc_sig c))
+     end.
+
+Fixpoint rspec_calls (cs : list rcall) (os : list robs) : bool :=
+  match cs, os with
+  | [], [] => true
+  | c :: cs', o :: os' => rspec_call c o && rspec_calls cs' os'
+  | _, _ => false
+  end.
+
+Fixpoint robs_list_eqb (a b : list robs) : bool :=
+  match a, b with
+  | [], [] => true
+  | x :: a', y :: b' => robs_eqb x y && robs_list_eqb a' b'
+  | _, _ => false
+  end.
+
 (* ---------- cases: plain histories (C11_Model) and histories with faults ---------- *)
 
 Inductive xcase :=
 | XPlain (c : case)
-| XFault (id : N) (i : finput) (o : fobs).
+| XFault (id : N) (i : finput) (o : fobs)
+| XRef (id : N) (cs : list rcall) (os : list robs).
 
 Definition xrun (cs : list xcase) : list (N * N * N) :=
-  run_cases (fun x => match x with XPlain c => c_id c | XFault id _ _ => id end)
+  run_cases (fun x => match x with XPlain c => c_id c | XFault id _ _ => id | XRef id _ _ => id end)
     (fun x => match x with
               | XPlain c => obs_eqb (model (c_in c)) (c_obs c)
               | XFault _ i o => fobs_eqb (fmodel i) o
+              | XRef _ cs os => robs_list_eqb (map rmodel_call cs) os
               end)
     (fun x => match x with
               | XPlain c => negb (wf (c_in c)) || spec_ok (c_in c) (c_obs c)
               | XFault _ i o => negb (fwf i) || fspec_ok i o
+              | XRef _ cs os => rspec_calls cs os
               end)
     (fun _ => 0%N) cs.
